@@ -924,9 +924,48 @@ fn run_obs_guard(tier: &str, known: &Known) -> serde_json::Value {
     })
 }
 
+fn run_obs_race(tier: &str, known: &Known) -> serde_json::Value {
+    let t0 = std::time::Instant::now();
+    let rounds = if tier != "thorough" { 6000 } else { 60000 };
+    let mut failures = Vec::new();
+    for is_async in [false, true] {
+        let bad = obs::concurrent_last_drops(is_async, rounds);
+        if bad > 0 {
+            let cls = format!("{}/concurrent-last-drops", if is_async { "async-lock" } else { "sync" });
+            failures.push(serde_json::json!({"properties": if is_async { vec!["C03", "C02", "C16"] } else { vec!["C03", "C02"] }, "property": "C03", "classification": cls,
+                "what": "the last two clones of a SharedObservable were dropped at the same moment on two threads and the pending subscriber was not woken / does not see the end of the stream",
+                "step": 0, "expected": format!("0 of {} rounds", rounds), "observed": format!("{} of {} rounds", bad, rounds), "known": known.matches(&cls),
+                "input": {"kind": "obs-race", "flavour": if is_async { "async-lock" } else { "sync" }, "rounds": rounds}}));
+        }
+    }
+    serde_json::json!({
+        "check": "obs-race", "tier": tier, "seed": 0,
+        "scope": format!("STRESS TEST, not exhaustive, no control over the schedule: {} rounds per flavour of two threads meeting at a barrier and each dropping one of the last two clones of a SharedObservable while a subscriber is pending; the subscriber must have been woken and must see the end of the stream. A failing round is a real failing schedule; a pass decides nothing", rounds),
+        "evaluations": 2 * rounds,
+        "distinct_nontrivial": 2,
+        "rule": "distinct non-trivial cases = lock flavours",
+        "exhaustive": false,
+        "samples": [],
+        "failures": failures,
+        "elapsed_s": t0.elapsed().as_secs_f64(),
+    })
+}
+
 fn replay_obs(v: &serde_json::Value) -> i32 {
     use obs::*;
     let inp = &v["input"];
+    if inp["kind"].as_str() == Some("obs-race") {
+        let rounds = inp["rounds"].as_u64().unwrap_or(6000) as usize * 4;
+        println!("re-running the stress test on the real crate ({} rounds): {}", rounds, inp);
+        let bad = concurrent_last_drops(inp["flavour"].as_str() == Some("async-lock"), rounds);
+        return if bad == 0 {
+            println!("passes (no failing round this time; a stress test decides nothing when it passes)");
+            0
+        } else {
+            println!("FAILS: {} of {} rounds: the pending subscriber was not woken / does not see the end of the stream", bad, rounds);
+            1
+        };
+    }
     if inp["kind"].as_str() == Some("obs-unwind") {
         println!("replaying on the real crate (owner dropped by an unwinding panic): {}", inp);
         let r = std::panic::catch_unwind(|| run_unwind_drop(inp["flavour"].as_str() == Some("async-lock"), inp["unique_start"].as_bool().unwrap_or(false), inp["polled_before"].as_bool().unwrap_or(true)));
@@ -1030,7 +1069,7 @@ fn main() {
                 std::process::exit(0);
             }
         }
-        if v["input"]["kind"].as_str() == Some("obs") || v["input"]["kind"].as_str() == Some("obs-held") || v["input"]["kind"].as_str() == Some("obs-guard") || v["input"]["kind"].as_str() == Some("obs-unwind") {
+        if v["input"]["kind"].as_str() == Some("obs") || v["input"]["kind"].as_str() == Some("obs-held") || v["input"]["kind"].as_str() == Some("obs-guard") || v["input"]["kind"].as_str() == Some("obs-unwind") || v["input"]["kind"].as_str() == Some("obs-race") {
             std::process::exit(replay_obs(&v));
         }
         let sc = Scenario::from_json(&v["input"]).expect("scenario");
@@ -1139,6 +1178,16 @@ fn main() {
             "rule": "distinct non-trivial cases = distinct (operation, in transaction / panics, empty vector) classes exercised",
             "exhaustive": true, "samples": [], "failures": fv, "elapsed_s": t0.elapsed().as_secs_f64(),
         });
+        let text = serde_json::to_string_pretty(&j).unwrap();
+        match &args.out {
+            Some(p) => std::fs::write(p, text).unwrap(),
+            None => println!("{}", text),
+        }
+        return;
+    }
+    if args.check == "obs-race" {
+        let j = run_obs_race(&args.tier, &known);
+        std::panic::set_hook(prev);
         let text = serde_json::to_string_pretty(&j).unwrap();
         match &args.out {
             Some(p) => std::fs::write(p, text).unwrap(),
